@@ -9,17 +9,47 @@ def nontrivial(case):
     return bool(inp.get("enable")) and inp.get("iters", 0) >= 1 and len(inp.get("A", {}).get("nzval", [])) >= 1
 
 
+def extreme_swapped(inp):
+    """min >= 1e100 and max <= 1e-100: with min > max the clip returns one of its bounds, every
+    factor becomes 1e300 or 1e-300 and the scaled data overflow / underflow"""
+    try:
+        return float(inp.get("min", 1)) >= 1e100 and float(inp.get("max", 1)) <= 1e-100
+    except Exception:
+        return False
+
+
 def known_key(case):
-    return {"strict_uniform": "F9-e-not-bit-constant", "strict_bounds": "F9-bounds-ulp",
+    if case.get("op") == "props" and extreme_swapped(case.get("input", {})):
+        return "swapped-huge-bounds-overflow"
+    return {"strict_uniform": "F9-rectified-e-not-bit-constant", "strict_rect": "F9-rectified-e-outside-bounds-ulp",
+            "strict_clip": "F9-clip-multiply-outside-bounds-ulp",
             "literal_bounds": "bounds-need-min-le-1-le-max"}.get(case.get("op"))
 
 
 def spec_digest():
-    """the theorem statements live in Equil/Spec.v (Props/C10.v only names them), so the pin of
-    the statements is a digest of that file with comments and white space removed"""
-    import hashlib, os
-    src = core.strip_comments(open(os.path.join(core.COQ, "theories", "Equil", "Spec.v")).read())
-    return hashlib.sha256("".join(src.split()).encode()).hexdigest()
+    """the theorem statements live in Equil/Spec.v (whole file) and in the [Definition stmt_*]
+    blocks of the other Equil files (Props/C10.v only names them); the pin of the statements is
+    a digest of that text with comments and white space removed"""
+    import hashlib, os, re, glob
+    d = os.path.join(core.COQ, "theories", "Equil")
+    txt = core.strip_comments(open(os.path.join(d, "Spec.v")).read())
+    for f in sorted(glob.glob(os.path.join(d, "*.v"))):
+        if os.path.basename(f) == "Spec.v":
+            continue
+        src = core.strip_comments(open(f).read())
+        for m in re.finditer(r"^Definition (stmt_\w+|BlockUniform|ConeUniform|emul|kind_of|cone_of)\b.*?(?=^(?:Lemma|Theorem|Definition|Fixpoint|Section|End|Module|Require)\b)", src, re.S | re.M):
+            txt += m.group(0)
+    return hashlib.sha256("".join(txt.split()).encode()).hexdigest()
+
+
+def diagnose(chk, case):
+    if case.get("op") != "model":
+        return None
+    coq = case["coq"]
+    if not coq.startswith("c_model "):
+        return None
+    v = chk.coq_show(HEADER, ["c_model_diag " + coq[len("c_model "):]])
+    return {"fields": "P A q b d dinv e einv c", "(bitwise equal, within relative 1e-13)": v[0]}
 
 
 def post(chk, recs, cases):
@@ -44,38 +74,32 @@ SPEC = {
     "harness_prop": "c10",
     "nontrivial": nontrivial,
     "known_key": known_key,
+    "diagnose": diagnose,
     "post": post,
-    "rule": "cases = (check kind, problem) pairs; problems = fixed boundary instances for every (min/max, max_iter) combination + seeded random problems (n<=8, m<=16, all seven cone kinds, entries spanning 2^-75..2^75 / 1e-22..1e22 as powers of two and as general values, zero rows/columns, stored zeros, empty/diagonal/sparse/dense P, zero q) x settings (enable on/off, max_iter in {0,1,10,50}, min/max in {1e-4/1e4, 1/1, 1e-1/1e2, 1e-8/1e8}); each problem is checked four ways (model at binary64, property on the Rust output in exact dyadics, literal bounds, literal bit-constancy); a case is non-trivial when equilibration is enabled, runs at least one pass and A stores an entry; distinct = distinct (op,input) JSON",
+    "rule": "cases = (check kind, problem) pairs; problems = corpus witnesses + fixed boundary instances for every (min/max, max_iter) combination incl. min > max, 1 outside [min,max], 1e-300/1e300 + seeded random problems (n<=8, m<=16, all seven cone kinds, entries spanning 2^-75..2^75 / 1e-22..1e22 as powers of two and as general values, zero rows/columns, stored zeros, empty/diagonal/sparse/dense P, zero q) + a creep stream (clip engaging with a generic cumulative factor, 2..8 passes) x settings (enable on/off, max_iter in {0,1,10,50}, min/max in {1e-4/1e4, 1/1, 1e-1/1e2, 1e-8/1e8} and 1 in 5 from {1e4/1e-4, 10/0.1, 2/0.5, 2/4, 0.25/0.5, 1e-300/1e300, 1e300/1e-300}); each problem is checked five ways (binary64 model bitwise, property on the Rust output in exact dyadics, literal bounds of the clip path, literal bounds of rectified rows, literal bit-constancy); a case is non-trivial when equilibration is enabled, runs at least one pass and A stores an entry; distinct = distinct (op,input) JSON",
     "level": "proof",
-    "explanation": "Unbounded Coq theorems (Props/C10.v) state that the Gallina model of DefaultProblemData::equilibrate is an exact, positive, bounded, cone-preserving diagonal change of variables, for all data/cones/settings over the reals. The model is tied to the Rust code by running both on the same inputs: the model at primitive binary64 floats agrees with solver.data.{P,q,A,b,equilibration} (bit-identical on the unchanged tree, relation 1e-13 relative); and the statement of the property is evaluated on the Rust output itself in exact dyadic arithmetic (Base/Dyadic.v) inside Coq.",
-    "assumptions": ["binary64 rounding is not analysed, only bounded at run time by the stated tolerances", "presolve and chordal decomposition are disabled or inert in the generated problems (cases they reduce are skipped and counted)", "usize overflow is not modelled"],
+    "explanation": "Unbounded Coq theorems (Props/C10.v) state that the Gallina model of DefaultProblemData::equilibrate is an exact, positive, bounded, cone-preserving diagonal change of variables (including s in K <-> E s in K, z in K* <-> E^-1 z in K* over the cone predicates of Term/Spec.v), for all data/cones/settings over the reals. The model is tied to the Rust code by running both on the same inputs: the model at primitive binary64 floats must agree BITWISE with solver.data.{P,q,A,b,equilibration}; the statement of the property is also evaluated on the Rust output itself in exact dyadic arithmetic (Base/Dyadic.v) inside Coq; the one-ulp departures of binary64 from the real-number conclusions are exact vm_compute theorems (C10_F9_*_refuted) and listed known findings.",
+    "assumptions": ["no rounding-error analysis valid for all inputs: binary64 behaviour is covered by the bitwise tie on generated inputs and by exact witnesses", "presolve and chordal decomposition are disabled or inert in the generated problems (cases they reduce are skipped and counted)", "usize overflow is not modelled"],
 }
 
 
 def run(chk, replay=None):
-    # The literal-statement cases (strict_*, literal_bounds) fail on many inputs by design (F9);
-    # keep one representative per known-finding key and put every other disagreement first, so
-    # that the standard pipeline (which reports the first 20) can never lose a real one.
+    # vp/standard.py looks at every disagreement and skips the listed known findings, so nothing
+    # here filters results; the only job left is counting the literal-statement cases per key.
     orig = chk.coq_eval
 
-    def coq_eval_grouped(*a, **k):
+    def coq_eval_counted(*a, **k):
         bad, errors = orig(*a, **k)
-        rest, keyed, counts = [], {}, {}
+        counts = {}
         for case, code in bad:
-            key = known_key(case) if code != 2 else None
-            if key is None:
-                rest.append((case, code))
-            else:
+            key = known_key(case)
+            if key:
                 counts[key] = counts.get(key, 0) + 1
-                keyed.setdefault(key, (case, code))
         if counts:
-            chk.notes.append("cases failing only the literal (slack-free) statement, by known-finding key: %s" % counts)
-        n2 = sum(1 for _, code in rest if code == 2)
-        if n2:
-            chk.notes.append("%d model cases agree within relative 1e-13 but are not bit-identical (code 2 = harmless re-association of the floating-point operations)" % n2)
-        return rest + list(keyed.values()), errors
+            chk.notes.append("cases failing only a literal / known-finding statement, by key: %s" % counts)
+        return bad, errors
 
-    chk.coq_eval = coq_eval_grouped
+    chk.coq_eval = coq_eval_counted
     if replay:
         import os
         replay = os.path.abspath(replay)
